@@ -334,6 +334,36 @@ def retain_to_loop(s, rewrites=None):
         s = s[:m.start()] + new + s[end:]
 
 
+def map_collect_to_loop(s, rewrites=None):
+    """D19: the statement `let R = E.iter().map(|x| BODY).collect();` over a slice/Vec place E becomes the loop it stands for:
+        let mut R = Vec::new();
+        let mut idx_x: usize = 0;
+        while idx_x < E.len() { let x = &E[idx_x]; let item_x = BODY; R.push(item_x); idx_x += 1; }
+    (map + collect into a Vec yields BODY's value for each element, in order). Refused when BODY has `return` or `?`."""
+    rx = re.compile(r'^([ \t]*)let (\w+) = ((?:self|\w+)(?:\s*\.\s*\w+)*)\s*\.iter\(\)\s*\.map\(\|(\w+)\|\s*', re.M)
+    pos = 0
+    while True:
+        m = rx.search(s, pos)
+        if not m:
+            return s
+        ind, r, e, x = m.group(1), m.group(2), re.sub(r'\s+', '', m.group(3)), m.group(4)
+        op = s.rfind('(', m.start(), m.end())
+        cp = _match(s, op, '(', ')')
+        tail = re.match(r'\s*\.collect\(\)\s*;', s[cp + 1:])
+        if not tail:
+            pos = m.end()
+            continue
+        body = s[m.end():cp].strip()
+        if re.search(r'\breturn\b|\?', body):
+            raise Undecided('unsupported construct: map closure with early exit (D19 not applicable)')
+        new = ('%(i)slet mut %(r)s = Vec::new();\n%(i)slet mut idx_%(x)s: usize = 0;\n%(i)swhile idx_%(x)s < %(e)s.len() {\n'
+               '%(i)s    let %(x)s = &%(e)s[idx_%(x)s];\n%(i)s    let item_%(x)s = %(b)s;\n%(i)s    %(r)s.push(item_%(x)s);\n'
+               '%(i)s    idx_%(x)s += 1;\n%(i)s}') % dict(i=ind, r=r, e=e, x=x, b=body)
+        if rewrites is not None:
+            rewrites.append('D19 map/collect over %s' % e)
+        s = s[:m.start()] + new + s[cp + 1 + tail.end():]
+
+
 def iter_to_index_loop(s, rewrites=None):
     """D15 (plain form): `for x in v.iter() { BODY }` over a slice/Vec `v` becomes
         let mut idx_x: usize = 0; while idx_x < v.len() { let x = &v[idx_x]; BODY idx_x += 1; }
